@@ -196,7 +196,7 @@ def report(chk, variant, text, qs, fails):
 
 def run(chk):
     quick = chk.tier == "quick"
-    ok, log = chk.prove(["extract/Extract_C03.vo"])
+    ok, log = chk.prove(["extract/Extract_C03.vo", "extract/Extract_ED.vo"])
     chk.trusted += ["extraction (ExtrOcamlBasic, ExtrOcamlNatInt, ExtrOCamlFloats), ocaml/driver_c03.ml (parsing, sparse<->dense, printing), harness/h_ed.cpp, tools/edlib.py",
                     "mathcomp 1.15 (ssreflect, algebra) as installed",
                     "the correspondence between the list-level model of the two loops (HPart.fop_fill) and the matrices LeftMat/RightMat of Rotate.v is by inspection of two "
